@@ -50,6 +50,12 @@ def parseEntries (j : Json) : R (List (String × EntrySpec)) := do
         | _ => throw "bad shared entry"
     | _ => throw "bad cfg entry")
 
+def parseGroups (j : Json) : R (List (String × List String)) := do
+  (← arr j).mapM (fun g => do
+    match ← arr g with
+    | [n, ms] => return (← n.getStr?, ← (← arr ms).mapM (·.getStr?))
+    | _ => throw "bad group")
+
 /-- one operation of the harness = the session operations it amounts to, each with "was carried out" -/
 def parseOp (j : Json) : R (List (Bool × SOp)) := do
   let ok ← fldBool j "ok"
@@ -60,11 +66,11 @@ def parseOp (j : Json) : R (List (Bool × SOp)) := do
       | [n, d] => return (← n.getStr?, ← parseDecl d)
       | _ => throw "bad decl pair")
     return [(ok, .define ⟨← fldStr j "name", ← fldStrs j "mro", ← fldBool j "module", decls⟩ (← fldStrs j "bases"))]
-  | "load" => return [(ok, .load (← fldStr j "name") (← parseEntries (← fld j "entries")))]
+  | "load" => return [(ok, .load (← fldStr j "name") (← parseEntries (← fld j "entries")) (← parseGroups (← fld j "groups")))]
   | "inst" =>
     let sec ← fldStr j "section"
     let ld ← fld j "load"
-    let pre ← if ld.isNull then pure [] else do pure [(true, SOp.load sec (← parseEntries ld))]
+    let pre ← if ld.isNull then pure [] else do pure [(true, SOp.load sec (← parseEntries ld) (← parseGroups (← fld j "groups")))]
     return pre ++ [(ok, .create (← fldStr j "name") (← fldStr j "cls") sec)]
   | "setprop" =>
     let path ← match j.getObjVal? "path" with
